@@ -56,6 +56,8 @@ class Ctx:
     def paths(self, body, **kw):
         key = (id(body), tuple(sorted((k, str(v)) for k, v in kw.items())))
         if key not in self._paths:
+            if "inline" not in kw:
+                kw = dict(kw, inline=inline_policy(body.facts))
             ps = sym.walk(body, **kw)
             self._paths[key] = ps
             self.analysed_paths += len(ps)
@@ -167,6 +169,34 @@ def decision_on(path, pred):
         if e[0] == "switch" and pred(e[2]):
             return e[3]
     return None
+
+
+def is_error_exit(path):
+    """The path returns an error that it received from a callee: `x?` (from_residual) or the explicit
+    `match x { Err(e) => return Err(e.into()), .. }` / `return Err(e)` spelling of the same thing."""
+    r = ret_of(path)
+    if r is None:
+        return False
+    if r[0] == "call" and name_is(r[2], "from_residual"):
+        return True
+    if r[0] == "agg" and r[2] == "Err" and r[3]:
+        inner = r[3][0]
+        while inner[0] == "call" and name_is(inner[2], "into", "from") and inner[3]:
+            inner = inner[3][0]
+        inner = strip_wrappers(inner)
+        if inner[0] == "pl" and any(isinstance(x, tuple) and x[0] == "d" and x[2] in ("Err", "Break") for x in inner[2]):
+            return True
+    return False
+
+
+def returns_none(body, path):
+    """agg None, or `?` on an Option in a function that returns Option"""
+    r = ret_of(path)
+    if r is None:
+        return False
+    if r[0] == "agg" and r[2] == "None":
+        return True
+    return r[0] == "call" and name_is(r[2], "from_residual") and body.locals[0].startswith("std::option::Option<")
 
 
 def variant_of(t):
@@ -474,3 +504,55 @@ def run_witnesses(ctx, rule, wanted):
         ok = bool(cf) and bool(tw) and all(r[1] == "ok" for r in rs)
         ctx.ob(rule, "witness:" + name, ok, "compile-fail witness and its compiling twin: %s%s" % (rs, "" if rs else " | cargo output: " + p.stdout[-300:]))
     return {"witnesses_run": sorted(res)}
+
+
+# ------------------------------------------------------------------ helper inlining policy
+
+_ATOMS = None
+
+
+def atoms():
+    """Function names the rules talk about (every identifier-like string literal of the rule modules).
+    Crate functions with such a name are *atoms* of the analysis; any other small loop-free crate function
+    (typically a private helper extracted by a refactoring) is inlined by the walker."""
+    global _ATOMS
+    if _ATOMS is None:
+        import glob, os
+        here = os.path.dirname(os.path.abspath(__file__))
+        names = set()
+        for f in glob.glob(os.path.join(here, "*.py")) + glob.glob(os.path.join(here, "props", "*.py")):
+            if os.path.basename(f) == "dbg.py":
+                continue
+            src = open(f).read()
+            for m in re.finditer(r"[\"']([A-Za-z_][A-Za-z0-9_:<>]*)[\"']", src):
+                names.add(m.group(1).split("::")[-1])
+        _ATOMS = names
+    return _ATOMS
+
+
+_POLICIES = {}
+
+
+def inline_policy(facts):
+    if id(facts) in _POLICIES:
+        return _POLICIES[id(facts)]
+    at = atoms()
+
+    def pol(path):
+        p = strip_generics(path)
+        last = p.split("::")[-1]
+        if last in at or last.startswith("{closure"):
+            return None
+        bs = facts.by_path.get(p)
+        if not bs or len(bs) != 1:
+            return None
+        b = bs[0]
+        if len(b.blocks) > 80 or is_derive(b):
+            return None
+        f = facts.fns.get(p)
+        if f is None or f.get("async"):
+            return None
+        return b
+
+    _POLICIES[id(facts)] = pol
+    return pol
